@@ -366,7 +366,31 @@ func genJSONLine(r *rand.Rand) string {
 	return doc
 }
 
+// genWrittenLogfmt is the canonical writer of Verif/Env/Writers.lean (`Logfmt.write`) over random
+// pairs in its domain (keyOK, valOK): the domain of theorem C06_logfmt_read_write.
+func genWrittenLogfmt(r *rand.Rand) string {
+	var parts []string
+	for i, n := 0, r.Intn(4); i < n; i++ {
+		var k, v strings.Builder
+		for j, m := 0, 1+r.Intn(3); j < m; j++ {
+			c := byte(33 + r.Intn(94))
+			if c == '=' || c == '"' {
+				c = 'k'
+			}
+			k.WriteByte(c)
+		}
+		for j, m := 0, r.Intn(5); j < m; j++ {
+			v.WriteString(pick(r, []string{`\"`, `\\`, `\n`, `\r`, `\t`, " ", "=", "a", "7", "~", "{"}))
+		}
+		parts = append(parts, k.String()+`="`+v.String()+`"`)
+	}
+	return strings.Join(parts, " ")
+}
+
 func genLogfmtLine(r *rand.Rand) string {
+	if r.Intn(6) == 0 {
+		return genWrittenLogfmt(r)
+	}
 	n := r.Intn(5)
 	parts := make([]string, n)
 	for i := range parts {
